@@ -276,6 +276,12 @@ def shard(ctx: Ctx, acc: Acc) -> None:
 					judge(acc, {'text': text, 'path': 'memory', 'kind': kind + '+again'})
 				if i % 4 == 0 or kind.startswith('ill-typed'):
 					judge(acc, {'text': text, 'path': 'disk', 'kind': kind})
+				if kind.startswith('ill-typed') and i % 2 == 0:
+					# the same module file with other line endings: CRLF, classic-Mac CR, one stray CR in the middle
+					nl = text.count('\n')
+					for ending, variant in (('crlf', text.replace('\n', '\r\n')), ('cr', text.replace('\n', '\r')), ('stray-cr', text.replace('\n', '\r', max(1, nl // 2)).replace('\r', '\n', max(0, nl // 2 - 1)) if nl > 1 else text)):
+						acc.see('input_kind', 'line-endings:' + ending)
+						judge(acc, {'text': variant, 'path': 'disk', 'kind': kind + '+' + ending})
 				if i % 8 == 1 and 'valid' not in kind:
 					# the same text written over a module file that was accepted and cached a fraction of a second earlier
 					acc.see('input_kind', 'overwrites-an-accepted-file')
